@@ -1749,6 +1749,12 @@ class Exec:
                 new = z3.Concat(o.seq, z3.Unit(t))
                 below = z3.ForAll([x], z3.Implies(z3.Contains(o.seq, z3.Unit(x)), x < t), patterns=[z3.Contains(o.seq, z3.Unit(x))])
                 self.pc.append(ops.seq_incr(new) == z3.And(ops.seq_incr(o.seq), below))
+            if "append_nth" in getattr(self.contract, "lemmas", ()):
+                # a true fact about concatenation the sequence solver does not find by itself: appending keeps every position and puts x at the end
+                old_seq, new_seq = o.seq, z3.Concat(o.seq, z3.Unit(t))
+                qi = z3.Int(fresh_name("ap"))
+                self.pc.append(z3.ForAll([qi], z3.Implies(z3.And(qi >= 0, qi < z3.Length(old_seq)), new_seq[qi] == old_seq[qi])))
+                self.pc.append(new_seq[z3.Length(old_seq)] == t)
             o.seq = z3.Concat(o.seq, z3.Unit(t))
             self.written_paths.add(("heap", ref.oid))
             return NONE
@@ -2917,7 +2923,12 @@ class CalleeView:
             for cl, e in cc.ensures.items():
                 if self.bind_reference_clause(e):
                     continue
-                ex.assume(ex.spec(e, result=res))
+                g = ex.spec(e, result=res)
+                if z3.is_expr(g) and z3.is_false(z3.simplify(g)):
+                    # assuming it would end the path silently (and make everything after the call vacuously true): typically a reference clause
+                    # over a havoced object field that is not of the bindable form `self.f is x`
+                    raise OutsideSubset(f"postcondition {cl} of callee {cc.ident} is literally false in the modelled state after the call")
+                ex.assume(g)
             return res
         finally:
             if ex.old_stack and ex.old_stack[-1] is saved_old:
